@@ -36,7 +36,9 @@ func init() {
 	})
 	register(&Prop{
 		ID: "C19",
-		Rules: []*Rule{rArgUsed, forwardScoped("WithHint*", "WithDetail*", "WithIssueLink", "UnimplementedError*", "WithTelemetry", "WithContextTags", "WithSafeDetails", "GetAll*", "Flatten*", "GetTelemetryKeys", "GetContextTags", "HasIssueLink", "IsIssueLink", "HasUnimplementedError", "IsUnimplementedError"), scoped(rFormatArg, "a stored hint / link text is printed, never used as a format", func(_ *core.Ctx, k string) bool { return containsAny(k, "hintdetail", "issuelink", "telemetrykeys") }), scoped(rEffect, "the accessors never rewrite the annotation they read", func(_ *core.Ctx, k string) bool { return containsAny(k, "keys", "hint", "detail", "IssueLink", "tags", "telemetry", "SafeDetails") }), rPassThroughGuard, rLayerGetter, scoped(rOrder, "the hint/detail/link/tag/safe-detail accessors", func(_ *core.Ctx, k string) bool { return !strings.Contains(k, "GetOneLineSource") }), rHintProviders, rDedup, rFlattenSep, rGuardField, scoped(rFormatStored, "the hint and detail constructors", func(_ *core.Ctx, k string) bool { return containsAny(k, "Hint", "Detail", "printf-like") }), scoped(rAlwaysWraps, "the hint/detail/link/key/tag/safe-detail constructors", func(_ *core.Ctx, k string) bool {
+		Rules: []*Rule{rArgUsed, forwardScoped("WithHint*", "WithDetail*", "WithIssueLink", "UnimplementedError*", "WithTelemetry", "WithContextTags", "WithSafeDetails", "GetAll*", "Flatten*", "GetTelemetryKeys", "GetContextTags", "HasIssueLink", "IsIssueLink", "HasUnimplementedError", "IsUnimplementedError"), scoped(rFormatArg, "a stored hint / link text is printed, never used as a format", func(_ *core.Ctx, k string) bool { return containsAny(k, "hintdetail", "issuelink", "telemetrykeys") }), scoped(rEffect, "the accessors never rewrite the annotation they read", func(_ *core.Ctx, k string) bool {
+			return containsAny(k, "keys", "hint", "detail", "IssueLink", "tags", "telemetry", "SafeDetails")
+		}), rPassThroughGuard, rLayerGetter, scoped(rOrder, "the hint/detail/link/tag/safe-detail accessors", func(_ *core.Ctx, k string) bool { return !strings.Contains(k, "GetOneLineSource") }), rHintProviders, rDedup, rFlattenSep, rGuardField, scoped(rFormatStored, "the hint and detail constructors", func(_ *core.Ctx, k string) bool { return containsAny(k, "Hint", "Detail", "printf-like") }), scoped(rAlwaysWraps, "the hint/detail/link/key/tag/safe-detail constructors", func(_ *core.Ctx, k string) bool {
 			return containsAny(k, "WithHint", "WithDetail", "WithIssueLink", "WithTelemetry", "WithContextTags", "WithSafeDetails", "UnimplementedError")
 		}), scoped(rStdIdentity, "the accessor packages", func(_ *core.Ctx, k string) bool {
 			return containsAny(k, "hintdetail.", "issuelink.", "telemetrykeys.", "contexttags.", "safedetails.", "errbase.GetAllSafeDetails")
@@ -73,8 +75,10 @@ func init() {
 		Trusted: []string{"go/ssa", "gogo/protobuf marshalling of the payload messages"},
 	})
 	register(&Prop{
-		ID:    "C01",
-		Rules: []*Rule{scoped(rCmpGuard, "encoding and decoding never compare or hash error values of unknown dynamic type", func(_ *core.Ctx, k string) bool { return containsAny(k, "errbase.encode", "errbase.decode", "errbase.Encode", "errbase.Decode") }), rGenericMsg, scoped(rEffect, "encoding and decoding are functions of their argument: no package-level memo in the codec path", func(_ *core.Ctx, k string) bool { return containsAny(k, "ncode", "ecode", "extractPrefix") }), rDecodeReadonly, rSpecialText, scoped(rCodec, "fields that Error() reads, and the cause", codecTextFields), rOpaque, rDecodeResult, rElide, rTreeRec, rRegType, rSep, scoped(rShape, "the opaque types (what an unknowing process renders)", func(_ *core.Ctx, k string) bool { return strings.Contains(k, "opaque") }), scoped(rWalkMulti, "the encoder walk", func(_ *core.Ctx, k string) bool { return containsAny(k, "EncodeError", "is a leaf for UnwrapOnce") }), rSiblingGuard, rLoopAlias, rWriteFaithful, rErrnoTable, scoped(rFormatArg, "encoders, decoders and the opaque types", func(_ *core.Ctx, k string) bool { return containsAny(k, ".decode", ".encode", "opaque") })},
+		ID: "C01",
+		Rules: []*Rule{scoped(rCmpGuard, "encoding and decoding never compare or hash error values of unknown dynamic type", func(_ *core.Ctx, k string) bool {
+			return containsAny(k, "errbase.encode", "errbase.decode", "errbase.Encode", "errbase.Decode")
+		}), rGenericMsg, scoped(rEffect, "encoding and decoding are functions of their argument: no package-level memo in the codec path", func(_ *core.Ctx, k string) bool { return containsAny(k, "ncode", "ecode", "extractPrefix") }), rDecodeReadonly, rSpecialText, scoped(rCodec, "fields that Error() reads, and the cause", codecTextFields), rOpaque, rDecodeResult, rElide, rTreeRec, rRegType, rSep, scoped(rShape, "the opaque types (what an unknowing process renders)", func(_ *core.Ctx, k string) bool { return strings.Contains(k, "opaque") }), scoped(rWalkMulti, "the encoder walk", func(_ *core.Ctx, k string) bool { return containsAny(k, "EncodeError", "is a leaf for UnwrapOnce") }), rSiblingGuard, rLoopAlias, rWriteFaithful, rErrnoTable, scoped(rFormatArg, "encoders, decoders and the opaque types", func(_ *core.Ctx, k string) bool { return containsAny(k, ".decode", ".encode", "opaque") })},
 		Explain: "Decides the structural necessary conditions of text/shape preservation: writer/reader slot agreement for every field that Error() reads (R-CODEC), verbatim keep-and-re-emit of message, details, message type and causes by unknowing processes (R-OPAQUE-TRANSPORT), cause/branch recursion on both sides in index order with no branch dropped for any count (R-TREE-RECURSION, R-WALK-MULTI), decoders rebuilding the key's type (no drift after hop 1), one separator constant removed exactly (R-SEP), and Error()/formatter shape agreement. " +
 			"NOT decided: equality of Error() strings for all messages (in particular suffix-matching ambiguity in extractPrefix for messages containing \": \"), protobuf marshalling itself.",
 		Trusted: []string{"go/ssa", "gogo/protobuf"},
